@@ -766,10 +766,23 @@ class BaseTaskPool:
             for task_set in self._group_meta_tasks_running.values()
             for task in task_set
         ]
-        await gather(
-            *not_cancelled_meta_tasks,
-            return_exceptions=return_exceptions,
-        )
+        while not_cancelled_meta_tasks:
+            try:
+                await gather(
+                    *not_cancelled_meta_tasks,
+                    return_exceptions=return_exceptions,
+                )
+            except CancelledError:
+                # A meta task that is cancelled (with its group) before it
+                # even started ends up cancelled; that must not end the wait
+                # for the others. Anything else is our own cancellation.
+                if not any(t.cancelled() for t in not_cancelled_meta_tasks):
+                    raise
+                not_cancelled_meta_tasks = [
+                    t for t in not_cancelled_meta_tasks if not t.done()
+                ]
+            else:
+                break
         self._meta_tasks_cancelled.clear()
         self._group_meta_tasks_running.clear()
         await gather(
